@@ -464,4 +464,9 @@ theorem same_passphrase_same_ciphertext (kdf : Bytes → Bytes) (pass pass' nonc
 
 theorem passphrase_facts : S3db.Gen.facts.deriveKeyAsExpected = true := by decide
 
+/-- a stored node object is only accepted under the name its content hashes to: the MAC says
+    "sealed with this key", the name check says "belongs here" (F64: a node overwritten with
+    another node's valid ciphertext) -/
+theorem node_name_facts : S3db.Gen.facts.nodeContentChecked = true := by decide
+
 end S3db.Props.C18
